@@ -76,6 +76,13 @@ func runC13(r *core.Run) {
 			return string(sequtil.DNAFrom2Bit(nil, sequtil.DNATo2Bit(nil, in)))
 		})
 
+	core.Clause(r, "dst-shares-memory-with-src-pack", core.Opts{Rule: dstAliasRule},
+		genDstAlias([]string{"", "A", "t", "ACG", "ACGT", "acgtTGCAg", "ACGTACGTACGTACGTACGTACGTACGTACGTACGTA", "ACNG", "N"}),
+		checkDstAlias("DNATo2Bit", sequtil.DNATo2Bit, ref.Pack2Bit))
+	core.Clause(r, "dst-shares-memory-with-src-unpack", core.Opts{Rule: dstAliasRule},
+		genDstAlias([]string{"", "\x00", "\x1b", "\xff\x00", "\xe4\x1b\x00\xff\x80\x01\x7f"}),
+		checkDstAlias("DNAFrom2Bit", sequtil.DNAFrom2Bit, func(p []byte) ([]byte, bool) { return ref.Unpack2Bit(p), true }))
+
 	core.Clause(r, "dst-contents-pack", core.Opts{Rule: dstRule},
 		genDstCases([]string{"", "A", "t", "ACG", "ACGT", "acgtTGCAg", "ACGTACGTACGTACGTACGTACGTACGTACGTACGTA", "ACNG", "\x00", "AC\x00", "ACGT\xff", "N"}),
 		checkDstContract("DNATo2Bit", sequtil.DNATo2Bit, ref.Pack2Bit))
